@@ -50,7 +50,7 @@ def check_C16(chk):
         k = "%s/%s" % (it["case"]["kind"], (it["rec"] or {}).get("out", "none").split()[0].split("(")[0])
         kinds[k] = kinds.get(k, 0) + 1
     cov["input_distribution"] = {"stream/outcome": kinds, "types": {str(t): sum(1 for it in items if it["case"]["ty"] == t) for t in range(1, 13)}}
-    cov["rule"] = ("codec driver: (bytes, attachments) messages sent through the public API with a raw sender and decoded as one of 12 expected types: 45% valid "
+    cov["rule"] = ("codec driver: (bytes, attachments) messages sent through the public API with a raw sender and decoded as one of 14 expected types: 45% valid "
                    "encodings, 40% mutations (bit flips, truncation, extension, out-of-range / huge / duplicate indices, missing, surplus and wrong-kind "
                    "attachments, random byte strings up to 4096 B), 15% type confusion; 7% are received and dropped without decoding; the decoded value "
                    "(every endpoint identified by probing) or the error is compared with Codec.decode_msg, and after the message is gone every attachment "
@@ -98,7 +98,9 @@ def gen_body(rng, nend, nreg, depth, used):
             acts.append("%s(%s)" % ("P" if prop else "N", a))
             term.append("SNest [%s] %s" % (t, "true" if prop else "false"))
         elif r < 0.97:
-            acts.append("e")
+            # a raw-bytes send (IpcBytesSender::send) issued from inside the serialiser: it carries no attachments and touches
+            # no per-thread list; for the side tables it is plain data (SEmit in the model)
+            acts.append("b")
             term.append("SEmit")
         else:
             acts.append("f")
@@ -121,7 +123,7 @@ def expected_bytes(body):
                 continue
             if c == ")":
                 return acts, i
-            if c in "ef":
+            if c in "efb":
                 acts.append((c,))
             elif c in "trg":
                 j = i
@@ -141,6 +143,8 @@ def expected_bytes(body):
         for a in acts:
             if a[0] == "e":
                 bs += b"\x07"
+            elif a[0] == "b":
+                bs += b"\x09"
             elif a[0] == "f":
                 return None
             elif a[0] in "tr":
